@@ -19,7 +19,7 @@ place_demo() {
   for f in $SRC/demo/*_test.go $SRC/demo/*/*_test.go; do
     [ -f "$f" ] || continue
     pkg=$(grep -m1 '^package ' "$f" | awk '{print $2}')
-    dest=$(grep -rhoE "[a-z_/0-9]+/$(basename $f)" $SRC/README.md $SRC/demo/RUN.txt $SRC/demo/*.md 2>/dev/null | grep -v '^/' | grep -v seed-out | head -1)
+    dest=$(grep -rhoE "(proxy|transport|interceptor|proto|encryption|common|config|auth|collect|cmd|endtoendtest|logging|metrics)[a-z_/0-9]*/$(basename $f)" $SRC/README.md $SRC/demo/RUN.txt $SRC/demo/*.md 2>/dev/null | head -1)
     if [ -z "$dest" ]; then
       case "$pkg" in
         proxy|proxy_test) dest=proxy/$(basename $f);; mux|mux_test) dest=transport/mux/$(basename $f);; session) dest=transport/mux/session/$(basename $f);;
